@@ -228,15 +228,22 @@ def pubKeyOf (ev : List (Nat × List (Nat × Nat))) (sender receiver : Nat) : Op
 def isValidEph (st : St) (sender : Nat) (keys : List (Nat × Nat)) : Bool :=
   (members st.n).all (fun j => j = sender || hasKey j keys)
 
+/-- the phase 1 messages of a member's inbox as (sender, keys) -/
+def ephMsgs (st : St) : List (Nat × List (Nat × Nat)) :=
+  st.prev.filterMap (fun m => match m with | .eph h k => some (h.sender, k) | _ => none)
+
+/-- `GenerateSymmetricKeys`, one (deduplicated) message -/
+def phase2Step (s : St) (p : Nat × List (Nat × Nat)) : St :=
+  if !isValidEph s p.1 p.2 then markDQ s p.1 else
+  let s := { s with evEph := putNew p.1 p.2 s.evEph }
+  match lookup s.id p.2 with
+  | some pk => { s with sym := put p.1 (symKey (ownKey s.id p.1) pk) s.sym }
+  | none => s
+
 def phase2 (st : St) : St :=
-  let msgs := st.prev.filterMap (fun m => match m with | .eph h k => some (h.sender, k) | _ => none)
+  let msgs := ephMsgs st
   let st := markInactive st (msgs.map (·.1))
-  (dedup (·.1) msgs).foldl (fun s (sender, keys) =>
-    if !isValidEph s sender keys then markDQ s sender else
-    let s := { s with evEph := putNew sender keys s.evEph }
-    match lookup s.id keys with
-    | some pk => { s with sym := put sender (symKey (ownKey s.id sender) pk) s.sym }
-    | none => s) st
+  (dedup (·.1) msgs).foldl phase2Step st
 
 /-! ## phase 3: shares and commitments -/
 
